@@ -185,6 +185,9 @@ def run_case(case):
                     s['with'] = '<' + '|'.join('{%s}' % n for n in ids[:2]) + '>'
             elif op == 'callable':
                 s['operation'] = plus7
+                s.pop('source', None)      # a source list would only mis-type a name-only target
+            if s['operation'] == 'constant':
+                s.pop('source', None)
             specs.append(s)
         real_specs = []
         for s in specs:
@@ -213,7 +216,20 @@ def run_case(case):
     else:
         raise KeyError(fam)
 
-    srcs = [lab.source(rn, sfields, tables[rn]) for rn in res_names]
+    per_res_fields = {rn: sfields for rn in res_names}
+    if fam == 'add_computed_field' and numeric and len(res_names) > 1 and rng.random() < 0.5:
+        # the same-named source fields are integer in one resource and number in another: a computed field given
+        # by name only must be typed per resource
+        other = 'number' if fields[0][1] == 'integer' else 'integer'
+        rn2 = res_names[-1]
+        per_res_fields = dict(per_res_fields)
+        per_res_fields[rn2] = [dict(f, type=other) for f in sfields]
+        for r in tables[rn2]:
+            for n_ in names:
+                if r[n_] is not None:
+                    r[n_] = D(r[n_]) + D('0.5') if other == 'number' else int(r[n_])
+        covc['mixed_types_across_resources'] = 1
+    srcs = [lab.source(rn, per_res_fields[rn], tables[rn]) for rn in res_names]
     got = lab.run(srcs + [step])
     sample = {'resources': res_names, 'fields': fields, 'selector': selector, 'config': desc_cfg,
               'rows': {rn: gen.render(tables[rn][:3], 300) for rn in res_names}}
@@ -241,9 +257,9 @@ def run_case(case):
         diffs = []
         gg = got.by_name()
         for rn in res_names:
-            F, R = sfields, tables[rn]
+            F, R = per_res_fields[rn], tables[rn]
             if rn in selected:
-                F, R = which(copy.deepcopy(sfields), copy.deepcopy(tables[rn]))
+                F, R = which(copy.deepcopy(per_res_fields[rn]), copy.deepcopy(tables[rn]))
             gdesc, grows = gg[rn]
             gF = gdesc['schema']['fields']
             counters['schemas_compared'] += 1
@@ -260,6 +276,20 @@ def run_case(case):
                                      % (rn, ef['name'], k, gf.get(k), v))
             counters['rows_compared'] += len(R)
             diffs += ['%s: %s' % (rn, x) for x in lab.rows_diff(norm(R, F), norm(grows, F))]
+            if fam == 'add_computed_field' and rn in selected:
+                # a target given by name only gets its type from the library: it must accept the emitted values
+                import tableschema
+                for gf in gF[len(sfields):]:
+                    fo = tableschema.Field(gf)
+                    for r_ in grows:
+                        v_ = r_.get(gf['name'])
+                        if v_ is None:
+                            continue
+                        try:
+                            fo.cast_value(v_)
+                        except Exception:
+                            diffs.append('%s: computed field %r declared %s holds %r' % (rn, gf['name'], gf.get('type'), v_))
+                            break
             fn = set(f['name'] for f in F)
             bad = [r for r in grows if set(r) != fn]
             if bad and len(R) == len(grows):
